@@ -51,7 +51,10 @@ type scriptedReceiver struct {
 	reqs    []recvReq
 	srv     *httptest.Server
 	failNth map[int]int // request sequence number -> status to answer
+	early   map[int]int // request sequence number -> status to answer before the body has been read
 	delay   time.Duration
+	nEarly     int
+	earlyPaths []string
 	// slowOnce: the first request whose path matches is answered this late (a receiver that stalls once)
 	slowOnceRe  *regexp.Regexp
 	slowOnceDur time.Duration
@@ -59,8 +62,19 @@ type scriptedReceiver struct {
 }
 
 func newScriptedReceiver() *scriptedReceiver {
-	sr := &scriptedReceiver{failNth: map[int]int{}}
+	sr := &scriptedReceiver{failNth: map[int]int{}, early: map[int]int{}}
 	sr.srv = httptest.NewServer(http.HandlerFunc(func(w http.ResponseWriter, r *http.Request) {
+		sr.mu.Lock()
+		ec := sr.early[len(sr.reqs)+sr.nEarly]
+		if ec != 0 {
+			sr.nEarly++
+			sr.earlyPaths = append(sr.earlyPaths, r.URL.Path)
+		}
+		sr.mu.Unlock()
+		if ec != 0 {
+			w.WriteHeader(ec) // refused before the body has been read
+			return
+		}
 		b, _ := io.ReadAll(r.Body)
 		if sr.delay > 0 {
 			time.Sleep(sr.delay)
@@ -451,6 +465,7 @@ func genC16(c *Ctx) {
 		}
 	}
 	genCsrc(c)
+	c16ChunkedFailures(c, s)
 	c16RealTime(c, s)
 	for i := 0; i < c.N(3, 12); i++ {
 		a := assets[r.Intn(len(assets))]
@@ -497,6 +512,63 @@ func genC16(c *Ctx) {
 		if mode == 2 || mode == 3 {
 			// no duplicate, no reordering per representation
 			c16Order(c, res, line, mode == 3)
+		}
+	}
+}
+
+// c16ChunkedFailures: chunked-transfer sessions (low-latency mode of the sender) in which an upload cannot be completed:
+// a representation that livesim2 cannot generate in low-latency mode (generated subtitles), a receiver that answers an
+// upload with an error after it has read the body, one that refuses it before it has read the body, and one that has
+// gone away.  Such an upload is lost, but the session must go on: no step hangs, the process survives, every other
+// representation / later number still arrives in order, and DELETE ends the session.
+func c16ChunkedFailures(c *Ctx, s *app.Server) {
+	type sc struct {
+		asset, cf, name string
+		tweak           func(sr *scriptedReceiver, setup map[string]any)
+	}
+	scs := []sc{
+		{"testpic_2s", "ato_1,chunkdur_1,timesubsstpp_en", "ungenerated-rep", nil},
+		{"testpic_2s", "chunkdur_2", "late-503", func(sr *scriptedReceiver, _ map[string]any) { sr.failNth[3] = 503 }},
+		{"testpic_2s", "ato_1,chunkdur_0.5", "late-404", func(sr *scriptedReceiver, _ map[string]any) { sr.failNth[2] = 404 }},
+		{"testpic_2s", "chunkdur_2", "early-503", func(sr *scriptedReceiver, _ map[string]any) { sr.early[3] = 503 }},
+		{"testpic_8s", "segtimeline_1,chunkdur_8", "early-401", func(sr *scriptedReceiver, _ map[string]any) { sr.early[2] = 401; sr.early[4] = 401 }},
+	}
+	for _, x := range scs {
+		a := findVAsset(x.asset)
+		if a == nil || os.Getenv("VERIF_SKIP_SCENARIO") == x.name {
+			continue
+		}
+		now := 3*a.LoopDurMS + 300
+		args := []string{a.AssetPath, x.cf, strconv.Itoa(now), "-", "ssssd"}
+		line := "sess " + strings.Join(args, " ") + " # chunked-failure=" + x.name
+		out, res := runSess(args, x.tweak)
+		c.Count("chunked-failure." + x.name)
+		if res == nil {
+			c.Violate("chunked-failure", "session could not be created: "+out, []string{line}, nil)
+			continue
+		}
+		if res.hung != "" {
+			c.Violate("hang", fmt.Sprintf("chunked session (%s): API call does not return: %s (%s)", x.name, res.hung, out), []string{line}, nil)
+			continue
+		}
+		c16Order(c, res, line, true)
+		// per representation: the numbers that arrived; at most the refused uploads are missing
+		got := map[string][]int{}
+		for _, q := range res.reqs {
+			m := sessPathRe.FindStringSubmatch(q.path)
+			if m == nil || m[2] == "init" {
+				continue
+			}
+			n, _ := strconv.Atoi(m[2])
+			got[m[1]] = append(got[m[1]], n)
+		}
+		nMedia := 0
+		for _, l := range got {
+			nMedia += len(l)
+		}
+		// 4 steps, 2 media representations (video, audio): 8 uploads, of which the scenario loses at most 2
+		if nMedia < 6 {
+			c.Violate("chunked-failure", fmt.Sprintf("chunked session (%s): only %d media uploads arrived in 4 steps (%v): the session did not go on after the failed upload; events: %s", x.name, nMedia, got, out), []string{line}, nil)
 		}
 	}
 }
